@@ -420,4 +420,4 @@ def run(tier, t0):
     return harness.finish(res, tier, t0, distinct=4, explanation=(
         'Narrow structural claim: in parse and parse_async every consume(n) is dominated by callback(&buf.data()[..n]) with nothing touching the buffer in between and no other way for bytes to leave the window '
         '(so the callback output is exactly the consumed prefix); parse_more returns 0 or the length of the newline-terminated prefix; the two loops have identical transition tables (each buffer / flag / return effect with its guard conditions); '
-        'the cache tee is a pure writer. Equality of outcomes across chunk schedules is behavioural and not decided.'))
+        'the cache tee is a pure writer; every field tokeniser stops at a line feed; the growth ladder of the window, folded from its three constants, reaches twice the 80 KiB line bound; recovery on a zero-length read is tested against a full buffer (known finding). Equality of outcomes across chunk schedules is behavioural and not decided.'))
